@@ -394,6 +394,28 @@ theorem ieee_ops_correctly_rounded (a b : Nat) (n1 n2 : Bool) (m1 m2 : Nat) (e1 
    fun h => div_correct a b n1 n2 m1 m2 e1 e2 ha hb h⟩
 
 open JanetModel.Int64.Ieee in
+/-- the IEEE-754 rules for the special values, as the instance has them (and as the hardware answers, bit for bit, on every run):
+    NaN operands give NaN; ∞+∞ = ∞, ∞−∞ = NaN, ∞·∞ = ±∞, ∞/∞ = NaN, 0·∞ = NaN, x/∞ = ±0, fmod(x, ∞) = x; x/±0 = ±∞, 0/0 = NaN,
+    fmod(x, 0) = NaN; an exact zero sum is +0 unless both operands are −0; zero products / quotients carry the xor of the signs -/
+theorem ieee_special_values (a b : Nat) :
+    ((decode a = .nan ∨ decode b = .nan) →
+      decode (ieee.add a b) = .nan ∧ decode (ieee.mul a b) = .nan ∧ decode (ieee.div a b) = .nan ∧ decode (ieee.fmod a b) = .nan) ∧
+    (∀ n1 n2, decode a = .inf n1 → decode b = .inf n2 →
+      decode (ieee.add a b) = (if n1 = n2 then .inf n1 else .nan) ∧ decode (ieee.mul a b) = .inf (n1 != n2) ∧ decode (ieee.div a b) = .nan) ∧
+    (∀ n1 n2 m e, decode a = .inf n1 → decode b = .fin n2 m e →
+      decode (ieee.add a b) = .inf n1 ∧ decode (ieee.mul a b) = (if m = 0 then .nan else .inf (n1 != n2)) ∧ decode (ieee.div a b) = .inf (n1 != n2)) ∧
+    (∀ n1 m e n2, decode a = .fin n1 m e → decode b = .inf n2 →
+      decode (ieee.add a b) = .inf n2 ∧ decode (ieee.mul a b) = (if m = 0 then .nan else .inf (n1 != n2)) ∧
+      decode (ieee.div a b) = .fin (n1 != n2) 0 (-1074) ∧ ieee.fmod a b = a) ∧
+    (∀ n1 n2 m1 m2 e1 e2, decode a = .fin n1 m1 e1 → decode b = .fin n2 m2 e2 →
+      (m2 = 0 → decode (ieee.div a b) = (if m1 = 0 then .nan else .inf (n1 != n2)) ∧ decode (ieee.fmod a b) = .nan) ∧
+      (valQ a + valQ b = 0 → decode (ieee.add a b) = .fin (n1 && n2) 0 (-1074)) ∧
+      (m1 = 0 ∨ m2 = 0 → decode (ieee.mul a b) = .fin (n1 != n2) 0 (-1074)) ∧
+      (m1 = 0 → m2 ≠ 0 → decode (ieee.div a b) = .fin (n1 != n2) 0 (-1074))) :=
+  ⟨nan_propagates a b, (infinity_rules a b).1, (infinity_rules a b).2.1, (infinity_rules a b).2.2,
+   fun n1 n2 m1 m2 e1 e2 ha hb => zero_rules a b n1 n2 m1 m2 e1 e2 ha hb⟩
+
+open JanetModel.Int64.Ieee in
 /-- ★ libm `floor` of the instance is the mathematical floor (the former hypothesis `FloorExact`), and every operation is
     exact when the exact result is a double (the former per-input hypothesis `ExactAt`) -/
 theorem ieee_floor_exact_and_ops_exact_when_representable :
